@@ -58,6 +58,9 @@ where
 
     /// Inserts the `value` into the data structure.
     pub fn insert(&mut self, value: Value) {
+        if self.reps.get(&value).is_some() {
+            return;
+        }
         self.reps.insert(&value.clone(), value);
     }
 
